@@ -4,7 +4,7 @@
 set -u
 patch="$(realpath "$1")"; id="$2"; tier="${3:-quick}"
 wt="$(mktemp -d /tmp/tryseed-XXXXXX)"; rmdir "$wt"
-git -C /repo worktree add -q --detach "$wt" HEAD || exit 2
+git -C /repo worktree add -q --detach "$wt" "${SEED_REV:-HEAD}" || exit 2
 cleanup() { git -C /repo worktree remove --force "$wt" 2>/dev/null; rm -rf "$wt" "$evd"; }
 evd="$(mktemp -d /tmp/tryseed-ev-XXXXXX)"
 trap cleanup EXIT
